@@ -405,6 +405,14 @@ def contw(ctx: Ctx) -> None:
             if key in ALLOW:
                 ctx.R.ok("CONT-W", f"{q}: {norm(c)[:60]}", ALLOW[key])
                 continue
+            # constructor of a plain record class of the package (NamedTuple / dataclass: fields only, no __init__ / __new__ / __post_init__)
+            if cal.kind == "pkg" and isinstance(c.func, ast.Name) and mod.has(c.func.id) and isinstance(mod.fn(c.func.id), ast.ClassDef):
+                cls_ = mod.fn(c.func.id)
+                body_ = [b for b in cls_.body if not (isinstance(b, ast.Expr) and isinstance(b.value, ast.Constant))]
+                if body_ and all(isinstance(b, ast.AnnAssign) or (isinstance(b, ast.FunctionDef) and not b.name.startswith("__")) for b in body_) \
+                        and not any(isinstance(x, ast.Starred) and norm(x.value) not in ("to_elaborate.pop()", "to_elaborate.popleft()") for x in c.args):
+                    ctx.R.ok("CONT-W", f"{q}: {norm(c)[:60]}", "constructor of a plain record class (fields only): cannot raise for a fixed argument count")
+                    continue
             # inside a broad try: contained whatever it is
             if any(broad_handlers(t) for t in enclosing_tries(mod, c)):
                 ctx.R.ok("CONT-W", f"{q}: {norm(c)[:60]}", "inside try/except Exception")
@@ -509,6 +517,10 @@ def _block_of(mod: Mod, st: ast.stmt) -> List[ast.stmt]:
     raise AnalysisError("block not found")
 
 
+def _touches_q(st: ast.AST) -> bool:
+    return any(isinstance(x, ast.Name) and x.id in ("to_unwrap", "to_elaborate") for x in ast.walk(st))
+
+
 def eng2(ctx: Ctx) -> None:
     """ENG-2 the elaborate_frame result is dispatched over exactly the four documented shapes"""
     from ..util import flip_compare
@@ -528,11 +540,23 @@ def eng2(ctx: Ctx) -> None:
     ninner = norm(ecall[0].args[1]) if len(ecall[0].args) > 1 else None
     if ninner is None:
         raise AnalysisError("ENG-2: elaborate_frame call lost its next_inner argument")
+    # `if r is not None: <everything else>` as the last statement of the iteration is `if r is None: continue` + the rest
+    keep_form = False
+    while rest and isinstance(rest[-1], ast.If) and norm(rest[-1].test) == f"{rvar} is not None" and not rest[-1].orelse \
+            and not any(isinstance(x, ast.If) and norm(x.test) == f"{rvar} is None" for x in rest) and est in [_stmt(mod, ecall[0])] \
+            and all(not _touches_q(x) for x in rest[:-1]):
+        keep_form = True
+        rest = rest[:-1] + list(rest[-1].body)
     # (1) None -> continue
     none_if = [s for s in rest if isinstance(s, ast.If) and norm(s.test) == f"{rvar} is None"]
+    if keep_form and not none_if:
+        ctx.R.ok("ENG-2", f"{rvar} is None -> keep the rest (everything else is under `if {rvar} is not None`)")
+        none_if = None
     def _touches_queues(st: ast.AST) -> bool:
         return any(isinstance(x, ast.Name) and x.id in ("to_unwrap", "to_elaborate") for x in ast.walk(st))
-    if none_if and len(none_if[0].body) == 1 and isinstance(none_if[0].body[0], ast.Continue) \
+    if none_if is None:
+        pass
+    elif none_if and len(none_if[0].body) == 1 and isinstance(none_if[0].body[0], ast.Continue) \
             and not any(_touches_queues(s_) for s_ in rest[:rest.index(none_if[0])]):
         ctx.R.ok("ENG-2", f"{rvar} is None -> keep the rest")
     elif none_if and len(none_if[0].body) == 1 and isinstance(none_if[0].body[0], ast.Continue):
@@ -549,8 +573,8 @@ def eng2(ctx: Ctx) -> None:
         if isinstance(s_, ast.If) and len(s_.body) == 1 and len(s_.orelse) == 1 and isinstance(s_.body[0], ast.Assign) and isinstance(s_.orelse[0], ast.Assign) \
                 and norm(s_.body[0].targets[0]) == norm(s_.orelse[0].targets[0]):
             test, body_v, else_v, tgt = s_.test, s_.body[0].value, s_.orelse[0].value, norm(s_.body[0].targets[0])
-        elif isinstance(s_, ast.Assign) and isinstance(s_.value, ast.IfExp):
-            test, body_v, else_v, tgt = s_.value.test, s_.value.body, s_.value.orelse, norm(s_.targets[0])
+        elif isinstance(s_, (ast.Assign, ast.AnnAssign)) and isinstance(s_.value, ast.IfExp):
+            test, body_v, else_v, tgt = s_.value.test, s_.value.body, s_.value.orelse, norm(s_.targets[0] if isinstance(s_, ast.Assign) else s_.target)
         if test is not None and "isinstance" in norm(test) and "Sequence" in norm(test):
             ivar = tgt
             neg = isinstance(test, ast.UnaryOp) and isinstance(test.op, ast.Not)
